@@ -329,6 +329,21 @@ fn insert_any_weight(nc: usize) {
     cov!("tiny_weight", w > 0.0 && w < 1e-300);
     cov!("huge_weight", w > 1e300);
 }
+/// The extremes are the inserted VALUES themselves, for values that are not small integers: x any finite f64 (|x| < 1e300),
+/// weight 3 (not a power of two, so that x*w rounds) into the empty digest: min() == max() == x exactly.
+fn insert_any_value_w3() {
+    let mut d: TDigest<K0> = TDigest::new(K0::new(2.0), 10);
+    let x = any_f64();
+    asm!(x.is_finite() && x.abs() < 1.0e300);
+    d.insert_weighted(x, 3.0);
+    chk!("any_value_min_is_inserted_value", d.min() == x);
+    chk!("any_value_max_is_inserted_value", d.max() == x);
+    let (nc, nb) = d.verif_lens();
+    chk!("any_value_recorded_once", nc + nb == 1);
+    cov!("tiny_value", x > 0.0 && x < 1.0e-310);
+    cov!("non_integer_value", x > 0.1 && x < 0.2);
+}
+harness!(td_insert_any_value_w3, unwind 5, { insert_any_value_w3() });
 harness!(td_insert_any_weight_c0, unwind 5, { insert_any_weight(0) });
 harness!(td_insert_any_weight_c1, unwind 5, { insert_any_weight(1) });
 harness!(td_insert_step_c0b0, unwind 5, { insert_step(0, 0) });
